@@ -201,6 +201,48 @@ def check_after_mutation(case, ctx):
     ctx.stats.case(case, done >= 1 and any(not r for r in case["rankings"]), ["ops_done:%d" % done])
 
 
+@st.composite
+def large_pair_cases(draw, tier):
+    """hundreds of rankings (a few distinct ballots with large multiplicities): numbers of rankings beyond the small
+    ints CPython shares (257 and more), beyond a byte, counters in the hundreds"""
+    base = draw(gen.datasets(max_n=5, min_n=2, max_m=4, kinds=("dense", "str"), allow_empty_rankings=True))["rankings"]
+    mult = [draw(st.sampled_from([1, 2, 100, 127, 128, 129, 255, 256, 257, 300])) for _ in base]
+    mode = draw(st.sampled_from(["equal", "equal", "one_changed", "multiplicity_moved", "one_more"]))
+    return {"base": base, "mult": mult, "mode": mode, "rot": draw(st.integers(0, 1000))}
+
+
+def check_large_pairs(case, ctx):
+    base, mult, mode = case["base"], case["mult"], case["mode"]
+    a = [r for r, k in zip(base, mult) for _ in range(k)]
+    b = list(a)
+    rot = case["rot"] % len(b)
+    b = b[rot:] + b[:rot]                       # same multiset, other order
+    if mode == "one_changed":
+        b[0] = [[e] for bk in reversed(b[0]) for e in bk] + ([] if b[0] else [[oracle.universe(a)[0]]])
+    elif mode == "multiplicity_moved" and len(base) >= 2:
+        # one copy of a ballot replaced by a copy of ANOTHER ballot: same total, same distinct ballots
+        i = next(k for k, r in enumerate(b) if oracle.canon(r) != oracle.canon(b[0])) if any(
+            oracle.canon(r) != oracle.canon(b[0]) for r in b) else 0
+        b[i] = [list(x) for x in b[0]]
+    elif mode == "one_more":
+        b.append([list(x) for x in b[0]])
+    if not any(bk for r in b for bk in r):
+        b = list(a)          # (a dataset without any element is refused by the library: documented, not the subject)
+    want = model_counter(a) == model_counter(b)
+    ctx.stats.case(case, len(a) >= 257, ["mode:" + mode, "want:%s" % want, "m>=257:%s" % (len(a) >= 257)])
+    da, db = lib.mk_dataset(a), lib.mk_dataset(b)
+    got, got_r = lib.must(lambda: da == db), lib.must(lambda: db == da)
+    if got is not True and got is not False:
+        raise Violation("A == B returned %r" % (got,))
+    if got != want or got_r != want:
+        raise Violation("two datasets of %d and %d rankings (%d distinct, mode %s): A == B is %r, B == A is %r, but they "
+                        "%s the same multiset of rankings" % (len(a), len(b), len(base), mode, got, got_r,
+                                                              "hold" if want else "do not hold"))
+    if not lib.must(lambda: da == lib.mk_dataset(list(a))):
+        raise Violation("a dataset of %d rankings differs from a dataset built from the same list" % len(a))
+
+
 def subchecks():
     return [HypSub("pairs", pair_cases, check, 20000, 300000),
-            HypSub("after_mutation", mutation_cases, check_after_mutation, 8000, 80000)]
+            HypSub("after_mutation", mutation_cases, check_after_mutation, 8000, 80000),
+            HypSub("pairs_large", large_pair_cases, check_large_pairs, 1500, 20000)]
